@@ -276,7 +276,13 @@ func (r *c25Run) Main(s *sim.Sim) {
 			return
 		}
 		if s.Now() > c25FaultPhase+r.last()+bound+30*time.Second {
-			s.Fail("C25", "liveness", "connect-never-succeeds", "Connect still failing %v after the last fault: %v", s.Now()-r.last(), err)
+			sig := "connect-never-succeeds"
+			if r.ReuseClient && attempt > 0 && strings.Contains(err.Error(), "already connected") {
+				// the catalogued finding about retrying Connect on the same Client: the failed
+				// attempt left its secure channel behind, every retry is refused at once
+				sig = "connect-never-succeeds:connect-retried-on-same-client"
+			}
+			s.Fail("C25", "liveness", sig, "Connect still failing %v after the last fault: %v", s.Now()-r.last(), err)
 			return
 		}
 		if closeEarly && s.Now() >= closeAt {
